@@ -305,6 +305,9 @@ class Item:
         extra = [Field(None, T('ph', Param(p))) for p in self.params if not used(p)]
         if self.lifetime and not any(s.kind in ('lref_str', 'lcow_str') for f in self.all_fields() for s in f.ty.subterms()):
             extra.append(Field(None, T('lref_str')))
+        if self.lifetime and not any(s.kind == 'lcow_str' for f in self.all_fields() for s in f.ty.subterms()) and r.random() < 0.6:
+            # the lifetime in generic-argument position as well (`Cow<'a, str>`): the macro rewrites both to 'static
+            extra.append(Field(None, r.choice([T('lcow_str'), T('vec', T('lcow_str')), T('tup', T('u', n=8), T('lcow_str'))])))
         if not extra:
             return
         if self.is_enum:
@@ -570,6 +573,25 @@ def main():
         mods = [r.choice(MODS) + str(k) for _ in range(depth)]
         items.append(Item(k, r, [i for i in items if not i.lifetime][-12:], mods))
 
+    # a fixed catalogue of member-type shapes, present in every corpus whatever the random choices were: the syntactic forms a
+    # type name can take (nested tuples, tuples as generic arguments, arrays, references, unit, markers, ranges, maps)
+    u8, u16, u32, bl = T('u', n=8), T('u', n=16), T('u', n=32), T('bool')
+    CATALOGUE = [
+        [T('tup', u8, T('tup', bl, u8)), T('map', u32, T('tup', u8, u16)), T('res', u8, T('tup', u8, u8)), T('tup', T('tup', u8, u16), u32)],
+        [T('arr', T('tup', u8, u16), n=3), T('vec', T('tup', u8, bl)), T('opt', T('vec', T('arr', u8, n=4))), T('box', T('tup', u8))],
+        [T('tup0'), T('tup', T('tup0')), T('tup', u8, T('ph', u8), u16), T('tup', T('ph', u8), T('tup0'), u32), T('ph', T('tup', u8, u8))],
+        [T('ref', T('str')), T('cow', T('slice', u8)), T('range', u8), T('rangei', u32), T('set', u16), T('map', u8, T('arr', T('tup', u8, u8), n=2)), T('string')],
+        [T('lcow_str'), T('lref_str'), T('vec', T('opt', T('tup', u8, T('tup', u16, u32)))), T('opt', T('lref_str'))],
+    ]
+    for fields in CATALOGUE:
+        k = len(items)
+        it = Item(k, random.Random(424242 + k), [], [])
+        it.ident, it.is_enum, it.params, it.skip_params, it.replace, it.docs = f'Catalogue{k}', False, [], [], [], []
+        it.capture, it.capture_text, it.explicit_capture = 'd', 'default', False
+        it.lifetime = any(s_.kind in ('lcow_str', 'lref_str') for f in fields for s_ in f.subterms())
+        it.shape, it.fields = 'n', [Field(f'c{i}', f) for i, f in enumerate(fields)]
+        it.variants = []
+        items.append(it)
     # items left out on request, and everything that refers to one of them (references only go to earlier items)
     excluded = set()
     want_out = {int(x) for x in a.exclude.split(',') if x.strip()}
